@@ -20,10 +20,18 @@ CHECKS = {
               "markers (step_fidelity), lifted to whole programs (run_fidelity) and to init;ops;flush;free: the file "
               "starts with the header and its user events are exactly the emitted ones, once, in order "
               "(stream_fidelity); evlen is exact and < capacity in every reachable state (buffer_in_bounds). "
+              "Props/C01Write.lean (9) removes the assumption that write() completes for the loop of write_evbuf, the OS being an "
+              "arbitrary list of answers (error or any count): when the loop ends the file grew by exactly the buffer "
+              "(write_evbuf_exact), at every other moment by a prefix of it (write_evbuf_prefix), it ends within max(1,size) "
+              "calls when every answer transfers a byte (write_evbuf_terminates), and its call log is what replay accepts "
+              "(replay_accepts, replay_accepts_abort). "
               "Tie: the real ovni.c+common.c+parson.c compiled with ASan/UBSan into a harness with an interposed clock; "
               "random programs and a systematic sweep of the fill level around the boundary; the stream file must equal "
-              "the bytes predicted by the Lean model (its own encoder) and satisfy an independent Python decoder/oracle."),
-        note=TB + "; clock replaced by a deterministic counter; write() assumed to complete (C10 covers faults); the "
+              "the bytes predicted by the Lean model (its own encoder) and satisfy an independent Python decoder/oracle; the same "
+              "programs are re-run with single short / interrupted writes and under whole pseudo-random short-write schedules "
+              "(every write cut to 1..n bytes), the file must stay byte-identical and the logged (asked, transferred) calls "
+              "must replay through WriteLoop.replay with the model's number of flushes and the file's size."),
+        note=TB + "; clock replaced by a deterministic counter; write() answers are an oracle in Props/C01Write (in Props/C01 the buffer is handed over whole); the "
              "buffer is modelled as a list of records whose encoded length is proved equal to evlen",
         technique="Lean 4 invariant proofs over a state-machine model of the staging buffer + byte-exact differential run against libovni",
         design="DESIGN.md §5 C01"),
